@@ -4,6 +4,7 @@ import (
 	"encoding/json"
 	"fmt"
 	"math/rand"
+	"sync"
 
 	"github.com/honeycombio/refinery/config"
 	"github.com/honeycombio/refinery/logger"
@@ -35,6 +36,15 @@ type c12Input struct {
 	Ops []c12Op  `json:"ops"`
 	// collector-level scenario around the real reloadConfigs (see c12_coll.go)
 	Reload *c12Reload `json:"reload,omitempty"`
+	// concurrent creation: Goroutines workers ask the factory for the same definition at the same time,
+	// Rounds times (registry cleared before each round)
+	Conc *c12Conc `json:"conc,omitempty"`
+}
+
+type c12Conc struct {
+	Goroutines int     `json:"goroutines"`
+	Rounds     int     `json:"rounds"`
+	Def        sampDef `json:"def"`
 }
 
 func init() {
@@ -94,6 +104,10 @@ func c12Gen(r *rand.Rand, tier string, i int) any {
 		n := 2 + r.Intn(3)
 		return c12Input{Cfg: []c12Env{{Name: "__default__", Kind: "det"}},
 			Reload: &c12Reload{Workers: n, Actor: r.Intn(n), Def: sampBaseDef(r, 3+r.Intn(5))}}
+	}
+	if i%10 == 5 {
+		return c12Input{Cfg: []c12Env{{Name: "__default__", Kind: "det"}},
+			Conc: &c12Conc{Goroutines: 4 + r.Intn(5), Rounds: 40, Def: sampBaseDef(r, 3+r.Intn(5))}}
 	}
 	in := c12Input{Cfg: c12GenCfg(r)}
 	nw := 1 + r.Intn(4)
@@ -367,7 +381,22 @@ func c12Run(raw json.RawMessage) (Case, error) {
 			ids[len(ids)] = uint64(len(ids))
 		}
 	}
-	coq := fmt.Sprintf("(Build_case %s %s %s %s)", cfg0, cq.List(ops), cq.List(obs), reloadCoq)
+	concCoq := "None"
+	if in.Conc != nil {
+		bad, err := c12RunConc(*in.Conc)
+		if err != nil {
+			return Case{}, err
+		}
+		concCoq = cq.Some(fmt.Sprintf("(%s, %s, %s)", cq.N(uint64(in.Conc.Goroutines)), cq.N(uint64(in.Conc.Rounds)), cq.N(uint64(bad))))
+		human = append(human, fmt.Sprintf("%d goroutines x %d rounds of simultaneous creation: %d rounds with different instances", in.Conc.Goroutines, in.Conc.Rounds, bad))
+		tags = append(tags, "concurrent-creation")
+		shared = true
+		gets += 2
+		for len(ids) < 2 {
+			ids[len(ids)] = uint64(len(ids))
+		}
+	}
+	coq := fmt.Sprintf("(Build_case %s %s %s %s %s)", cfg0, cq.List(ops), cq.List(obs), reloadCoq, concCoq)
 	b, _ := json.Marshal(in)
 	return Case{Coq: coq, Key: string(b), Nontriv: shared && gets >= 2 && len(ids) >= 2, Tags: sampDedupTags(tags),
 		Summary: map[string]any{"rules": in.Cfg, "history": human}}, nil
@@ -406,4 +435,62 @@ func c12Shrink(raw json.RawMessage) []json.RawMessage {
 		}
 	}
 	return out
+}
+
+// c12RunConc: the real SamplerFactory; in every round the registry is cleared and Goroutines goroutines,
+// released together, ask for the sampler of the same environment. Returns the number of rounds in
+// which they did not all end up with the same dynsampler instance. (On the source as it is the
+// lookup-or-create runs under the factory mutex, so the answer is always 0.)
+func c12RunConc(in c12Conc) (int, error) {
+	cfgDef, _, err := sampBuild(in.Def)
+	if err != nil {
+		return 0, err
+	}
+	ch := &config.V2SamplerChoice{}
+	switch x := cfgDef.(type) {
+	case *config.DynamicSamplerConfig:
+		ch.DynamicSampler = x
+	case *config.EMADynamicSamplerConfig:
+		ch.EMADynamicSampler = x
+	case *config.EMAThroughputSamplerConfig:
+		ch.EMAThroughputSampler = x
+	case *config.WindowedThroughputSamplerConfig:
+		ch.WindowedThroughputSampler = x
+	case *config.TotalThroughputSamplerConfig:
+		ch.TotalThroughputSampler = x
+	}
+	mc := &config.MockConfig{Samplers: map[string]*config.V2SamplerChoice{"prod": ch,
+		"__default__": {DeterministicSampler: &config.DeterministicSamplerConfig{SampleRate: 1}}}}
+	factory := &sample.SamplerFactory{Config: mc, Logger: &logger.NullLogger{}, Metrics: &metrics.NullMetrics{}}
+	factory.Start()
+	defer factory.Stop()
+	if in.Goroutines < 2 {
+		in.Goroutines = 2
+	}
+	bad := 0
+	for round := 0; round < in.Rounds; round++ {
+		factory.ClearDynsamplers()
+		got := make([]any, in.Goroutines)
+		start := make(chan struct{})
+		var wg sync.WaitGroup
+		for g := 0; g < in.Goroutines; g++ {
+			wg.Add(1)
+			go func(g int) {
+				defer wg.Done()
+				<-start
+				if s := factory.GetSamplerImplementationForKey("prod"); s != nil {
+					got[g] = sample.VerifC12Dynsampler(s)
+				}
+			}(g)
+		}
+		close(start)
+		wg.Wait()
+		for g := 1; g < in.Goroutines; g++ {
+			if got[g] != got[0] {
+				bad++
+				break
+			}
+		}
+	}
+	return bad, nil
 }
